@@ -56,6 +56,7 @@ func discharge(fx *FnExec, obls []*Obligation, opt dischargeOpts) {
 	type job struct {
 		o      *Obligation
 		script string
+		alts   []string
 	}
 	var jobs []job
 	c := fx.c
@@ -74,8 +75,24 @@ func discharge(fx *FnExec, obls []*Obligation, opt dischargeOpts) {
 				vals = append(vals, v.T)
 			}
 		}
-		script := c.Query(o.Assume, goal, vals, opt.timeoutMs)
-		jobs = append(jobs, job{o, script})
+		var valNames []string
+		for _, v := range o.Values {
+			if !v.T.Sort.IsArr() {
+				valNames = append(valNames, v.Name)
+			}
+		}
+		script, gvs := c.QueryGV(o.Assume, goal, vals, opt.timeoutMs)
+		o.GVKeys = map[string]string{}
+		for i, k := range gvs {
+			if k != "" {
+				o.GVKeys[k] = valNames[i]
+			}
+		}
+		var alts []string
+		for _, alt := range o.Alts {
+			alts = append(alts, c.Query(o.Assume, c.Implies(o.PC, alt), nil, opt.timeoutMs))
+		}
+		jobs = append(jobs, job{o, script, alts})
 	}
 	sem := make(chan struct{}, opt.parallel)
 	var wg sync.WaitGroup
@@ -88,8 +105,7 @@ func discharge(fx *FnExec, obls []*Obligation, opt dischargeOpts) {
 			r := Solve(j.script, opt.workdir, j.o.Name, opt.timeoutMs, opt.all)
 			j.o.Status, j.o.Backend, j.o.Ms, j.o.Output = r.Status, r.Backend, r.Ms, r.Output
 			if j.o.Status != "unsat" && !j.o.Cover {
-				for i, alt := range j.o.Alts {
-					s2 := c.Query(j.o.Assume, c.Implies(j.o.PC, alt), nil, opt.timeoutMs)
+				for i, s2 := range j.alts {
 					r2 := Solve(s2, opt.workdir, fmt.Sprintf("%s.alt%d", j.o.Name, i), opt.timeoutMs, false)
 					if r2.Status == "unsat" {
 						j.o.Status, j.o.Backend, j.o.Output = "unsat", r2.Backend+"+witness", r2.Output
